@@ -7,6 +7,7 @@ import (
 	"fmt"
 	"io"
 	"io/ioutil"
+	"math"
 	"sync"
 	"sync/atomic"
 	"time"
@@ -64,7 +65,7 @@ type PubSub struct {
 // NewPubSub creates a route that writes metrics to a Google PubSub topic
 // We will automatically run the route and the destination
 func NewPubSub(key string, matcher matcher.Matcher, project, topic, format, codec string, bufSize, flushMaxSize, flushMaxWait int, blocking bool) (Route, error) {
-	if bufSize < 0 || flushMaxWait <= 0 {
+	if bufSize < 0 || bufSize > math.MaxInt32 || flushMaxWait <= 0 {
 		return nil, fmt.Errorf("pubsub(%s): bufSize must be >= 0 and flushMaxWait > 0", key)
 	}
 	r := &PubSub{
